@@ -18,6 +18,8 @@
   * `List.read` loops over the siblings with the same leader "-"; nothing is loose (no blank lines).
 -/
 import Mistletoe.Proofs.Wrap
+import Mistletoe.Model.Toc
+import Mistletoe.Model.Config
 namespace Mistletoe.Block
 open Mistletoe Mistletoe.Py Mistletoe.Scan
 
@@ -708,7 +710,7 @@ theorem outline_item_step (cfg : Cfg) (tpre tpost : List BTok) (hc : ListCfg cfg
   have hT := (plainTitle_iff _).mp ho.1
   have hlen : tpre.length + 1 ≤ cfg.types.length := by rw [hc.types]; simp
   obtain ⟨g, rfl⟩ : ∃ g, gas = g + 1 + 1 + 1 := ⟨gas - 3, by simp only [needO] at hg; omega⟩
-  have hgg : needL (cfg.types.length + 4) kids + cfg.types.length + 1 ≤ g + 1 := by simp only [needO] at hg; omega
+  have hgg : needL (cfg.types.length + 4) kids + cfg.types.length + 2 ≤ g + 1 := by simp only [needO] at hg; omega
   have hp : FW.peek ⟨itemBuf n (.node t kids), 0, n⟩ = some { s := t ++ ['\n'], origin := n } := rfl
   have htab : readTable ⟨itemBuf n (.node t kids), 0, n⟩ = none := by
     have := readTable_none [] { s := t ++ ['\n'], origin := n } (lns 2 (n + 1) kids) n (by
@@ -726,7 +728,8 @@ theorem outline_item_step (cfg : Cfg) (tpre tpost : List BTok) (hc : ListCfg cfg
   have hR := readParagraph_title cfg tpre tpost hc st.setext t hT n kids ho.2
   have hY := tryTypes_quiet cfg ⟨itemBuf n (.node t kids), 0, n⟩ st { s := t ++ ['\n'], origin := n } _ _ (title_quiet hT) htab hR
     cfg.types (g + 1) (paragraph_mem hc) (by omega)
-  simp only [tokenizeBlock, tokLoop, hp, hY, Nat.add_zero]
+  rw [tokenizeBlock, tokLoop]
+  simp only [hp, hY, Nat.add_zero]
   cases kids with
   | nil =>
     simp [tokLoop, FW.peek, itemBuf, lns, expInner]
@@ -764,5 +767,156 @@ theorem tokenizeBlock_outline (cfg : Cfg) (tpre tpost : List BTok) (hc : ListCfg
     obtain ⟨g, rfl⟩ : ∃ g, gas = g + 1 := ⟨gas - 1, by omega⟩
     have := tokLoop_outline cfg tpre tpost hc _ o os hok (list_ok cfg tpre tpost hc _ hne hok) 0 (by omega) g (by omega) [] n st [] false
     simpa [tokenizeBlock] using this
+
+/-! ### The final statements (C19) -/
+
+mutual
+theorem olinesO_length (col : Nat) : ∀ (o : O), (olinesO col o).length = sizeO o
+  | .node t kids => by simp [olinesO, sizeO, olines_length (col + 4) kids]
+theorem olines_length (col : Nat) : ∀ (os : List O), (olines col os).length = size os
+  | [] => rfl
+  | o :: os => by simp [olines, size, olinesO_length col o, olines_length col os]
+end
+
+mutual
+/-- the ghost origins do not touch the text of the lines -/
+theorem lnsO_s (col n : Nat) : ∀ (o : O), (lnsO col n o).map (·.s) = olinesO col o
+  | .node t kids => by simp [lnsO, olinesO, lns_s (col + 4) (n + 1) kids]
+theorem lns_s (col n : Nat) : ∀ (os : List O), (lns col n os).map (·.s) = olines col os
+  | [] => rfl
+  | o :: os => by simp [lns, olines, lnsO_s col n o, lns_s col (n + sizeO o) os]
+end
+
+/-- the numbering `blockPhase` gives to the lines of a document: line `i` (from `k`) has origin `i + 1` -/
+def numbered (k : Nat) (ss : List Str) : List Line :=
+  (ss.zipIdx k).map (fun (s, i) => { s := s, origin := i + 1 })
+
+theorem numbered_cons (k : Nat) (s : Str) (ss : List Str) :
+    numbered k (s :: ss) = { s := s, origin := k + 1 } :: numbered (k + 1) ss := by
+  simp [numbered, List.zipIdx_cons]
+
+theorem numbered_append (k : Nat) (a b : List Str) : numbered k (a ++ b) = numbered k a ++ numbered (k + a.length) b := by
+  simp [numbered, List.zipIdx_append]
+
+mutual
+theorem numberedO (col : Nat) : ∀ (o : O) (k : Nat), numbered k (olinesO col o) = lnsO col (k + 1) o
+  | .node t kids, k => by simp [olinesO, lnsO, numbered_cons, numberedL (col + 4) kids (k + 1)]
+theorem numberedL (col : Nat) : ∀ (os : List O) (k : Nat), numbered k (olines col os) = lns col (k + 1) os
+  | [], _ => rfl
+  | o :: os, k => by
+    simp only [olines, lns, numbered_append, olinesO_length, numberedO col o k, numberedL col os (k + sizeO o)]
+    rw [show k + sizeO o + 1 = k + 1 + sizeO o by omega]
+end
+
+theorem blockPhase_olines (cfg : Cfg) (gas col : Nat) (os : List O) :
+    blockPhase cfg gas (olines col os) = tokenizeBlock cfg gas (lns col 1 os) 1 {} := by
+  have := numberedL col os 0
+  simp only [numbered, Nat.zero_add] at this
+  simp only [blockPhase, this]
+
+mutual
+/-- the gas used, in closed form: `K + 1` per heading -/
+theorem needO_eq (K : Nat) : ∀ (o : O), needO K o = (K + 1) * sizeO o
+  | .node t kids => by simp only [needO, sizeO, needL_eq K kids, Nat.mul_add]; omega
+theorem needL_eq (K : Nat) : ∀ (os : List O), needL K os = (K + 1) * size os
+  | [] => rfl
+  | o :: os => by simp only [needL, size, needO_eq K o, needL_eq K os, Nat.mul_add]; omega
+end
+
+/-- **C19, the parse**: for a non-empty outline `os` with plain-word titles, under any block token list that asks
+    `List` before `Table` and `Paragraph` (`ListCfg`), and with `needL … os + |types| + 4` gas
+    (`= (|types| + 5) · size os + |types| + 4`, `needL_eq`), `tokenize_block` on the toc lines (numbered from any
+    `n`, in any state `st`) returns exactly one entry: the `List` whose items are `expItems 0 n os` - one item per
+    top-level heading, in order, each holding one `Paragraph` with the heading's title followed, iff the heading has
+    headings below it, by one nested `List` of their items (recursively); nothing is loose; the state is unchanged.
+    The same as `blockPhase` (`block_token.tokenize(lines)`: lines numbered from 1, fresh state). -/
+theorem C19_outline_parses (cfg : Cfg) (tpre tpost : List BTok) (hc : ListCfg cfg tpre tpost) (os : List O) (hne : os ≠ [])
+    (hok : oks os = true) (gas : Nat) (hg : needL (cfg.types.length + 4) os + cfg.types.length + 4 ≤ gas) :
+    (∀ (n : Nat) (st : St), tokenizeBlock cfg gas (lns 0 n os) n st =
+        .ok ({ entries := [.list (expItems 0 n os) n n], loose := false }, st))
+    ∧ blockPhase cfg gas (olines 0 os) = .ok ({ entries := [.list (expItems 0 1 os) 1 1], loose := false }, {}) := by
+  refine ⟨fun n st => tokenizeBlock_outline cfg tpre tpost hc os hne hok gas hg n st, ?_⟩
+  rw [blockPhase_olines]
+  exact tokenizeBlock_outline cfg tpre tpost hc os hne hok gas hg 1 {}
+
+/-! #### The connection with `TocRenderer.toc` (`Model/Toc.lean`) -/
+
+mutual
+theorem flattenO_ge (lv : Nat) : ∀ (o : O), ∀ h ∈ flattenO lv o, lv ≤ h.1
+  | .node t kids => by
+    intro h hh
+    simp only [flattenO, List.mem_cons] at hh
+    rcases hh with rfl | hh
+    · exact Nat.le_refl _
+    · have := flatten_ge (lv + 1) kids h hh; omega
+theorem flatten_ge (lv : Nat) : ∀ (os : List O), ∀ h ∈ flatten lv os, lv ≤ h.1
+  | [] => by intro h hh; simp [flatten] at hh
+  | o :: os => by
+    intro h hh
+    simp only [flatten, List.mem_append] at hh
+    rcases hh with hh | hh
+    · exact flattenO_ge lv o h hh
+    · exact flatten_ge lv os h hh
+end
+
+theorem foldl_min_eq (hs : List (Nat × Str)) (m : Nat) (h : ∀ x ∈ hs, m ≤ x.1) :
+    hs.foldl (fun m x => min m x.1) m = m := by
+  induction hs with
+  | nil => rfl
+  | cons x xs ih =>
+    have hx := h x (List.mem_cons_self ..)
+    simp only [List.foldl_cons, Nat.min_eq_left hx]
+    exact ih (fun y hy => h y (List.mem_cons_of_mem _ hy))
+
+/-- the first heading of an outline is (one of) the shallowest -/
+theorem baseLevel_flatten (lv : Nat) (os : List O) (hne : os ≠ []) : Toc.baseLevel (flatten lv os) = lv := by
+  cases os with
+  | nil => exact absurd rfl hne
+  | cons o os =>
+    cases o with
+    | node t kids =>
+      simp only [flatten, flattenO, List.cons_append, Toc.baseLevel]
+      refine foldl_min_eq _ lv ?_
+      intro x hx
+      rcases List.mem_append.mp hx with hx | hx
+      · have := flatten_ge (lv + 1) kids x hx; omega
+      · exact flatten_ge lv os x hx
+
+mutual
+theorem tocLineO (base : Nat) : ∀ (o : O) (d : Nat), (flattenO (base + d) o).map (Toc.tocLine base) = olinesO (4 * d) o
+  | .node t kids, d => by
+    have ih := tocLineL base kids (d + 1)
+    rw [show 4 * (d + 1) = 4 * d + 4 by omega] at ih
+    simp only [flattenO, olinesO, List.map_cons, ← Nat.add_assoc, ih]
+    simp [Toc.tocLine, dashLine]
+theorem tocLineL (base : Nat) : ∀ (os : List O) (d : Nat), (flatten (base + d) os).map (Toc.tocLine base) = olines (4 * d) os
+  | [], _ => rfl
+  | o :: os, d => by simp only [flatten, olines, List.map_append, tocLineO base o d, tocLineL base os d]
+end
+
+/-- **C19, the lines**: the list lines `TocRenderer.toc` builds (`Toc.tocLines`) for the headings of an outline
+    (`flatten lv os`: pre-order, `kids` one level deeper, top level `lv`) are the lines `olines 0 os` - the text of
+    `lns 0 n os` for every numbering `n`; the base level is `lv`. -/
+theorem C19_outline_lines (lv n : Nat) (os : List O) :
+    Toc.tocLines (flatten lv os) = (lns 0 n os).map (·.s)
+    ∧ Toc.tocLines (flatten lv os) = olines 0 os
+    ∧ (os ≠ [] → Toc.baseLevel (flatten lv os) = lv) := by
+  have key : Toc.tocLines (flatten lv os) = olines 0 os := by
+    cases os with
+    | nil => rfl
+    | cons o os =>
+      unfold Toc.tocLines
+      rw [baseLevel_flatten lv (o :: os) (by simp)]
+      exact tocLineL lv (o :: os) 0
+  exact ⟨by rw [lns_s]; exact key, key, baseLevel_flatten lv os⟩
+
+/-- **C19, nesting**: `block_token.tokenize` on the list lines `TocRenderer.toc` builds for the headings of a
+    non-empty outline with plain-word titles gives one `List`, nested exactly as the outline. -/
+theorem C19_outline_toc (cfg : Cfg) (tpre tpost : List BTok) (hc : ListCfg cfg tpre tpost) (lv : Nat) (os : List O) (hne : os ≠ [])
+    (hok : oks os = true) (gas : Nat) (hg : (cfg.types.length + 5) * size os + cfg.types.length + 4 ≤ gas) :
+    blockPhase cfg gas (Toc.tocLines (flatten lv os)) =
+      .ok ({ entries := [.list (expItems 0 1 os) 1 1], loose := false }, {}) := by
+  rw [(C19_outline_lines lv 0 os).2.1]
+  exact (C19_outline_parses cfg tpre tpost hc os hne hok gas (by rw [needL_eq]; omega)).2
 
 end Mistletoe.Block
